@@ -37,6 +37,11 @@ Judge(e) ==
         badn == {k \in 1..Len(e.ninv) : MulP(e.ninv_n[k], e.ninv[k]) # 1}
         ok == okroot /\ Len(e.powers) = 1024 /\ Len(e.powers_inv) = 1024 /\ badp = {} /\ badi = {} /\ badn = {}
     IN [ok |-> ok, branch |-> "tables", detail |-> IF ok THEN <<1024>> ELSE <<okroot, badp, badi, badn>>]
+  ELSE IF e.ev = "u32rt" THEN
+    \* both compositions of the two transforms are the identity, on structured vectors over the whole range [0, p), and the
+    \* transform of such a vector stays canonical
+    LET ok == e.fwd_inv = e.a /\ e.inv_fwd = e.a /\ (\A i \in 1..Len(e.fwd) : e.fwd[i] >= 0 /\ e.fwd[i] < UP)
+    IN [ok |-> ok, branch |-> "rt-n" \o ToString(e.n), detail |-> <<>>]
   ELSE
     \* exact product over Z (entries small enough: n * 2000 * 100 < 2^29) and round trip
     LET ok == e.prod = NegacyclicMulZ(e.a, e.b) /\ e.rt = e.a
